@@ -15,10 +15,16 @@ CFG = "INIT Init\nNEXT Next\nINVARIANT Holds\nCHECK_DEADLOCK FALSE\n"
 
 def _work(task):
     srcs, path = task
-    from .. import srcpipe
+    from .. import astgraph, srcpipe
 
     recs = []
     for src, feats in srcs:
+        if feats == ["graph"]:
+            # second domain: a closed CFG decorated with AST payloads (src is the successor table)
+            r = astgraph.pipeline_graph(src)
+            recs.append({"outcome": r["outcome"], "stage": r["stage"], "exc": r["exc"], "census": r["census"] or {}, "src": json.dumps(src), "feats": feats,
+                         "flat": r["flat"], "skeleton": r["skeleton"], "skexc": r["skexc"]})
+            continue
         r = srcpipe.pipeline(src)
         recs.append({"outcome": r["outcome"], "stage": r["stage"], "exc": r["exc"], "census": r["census"] or {}, "src": src, "feats": feats,
                      "flat": r.get("flat", {}), "skeleton": r.get("skeleton", []), "skexc": r.get("skeleton_exc", "")})
@@ -43,6 +49,9 @@ def main(argv):
     else:
         ps = pygen.generate(args.seed, 1500 if quick else 12000, max_depth=3 if quick else 4, max_stmts=3 if quick else 4)
         progs = [(p.source(), p.feats) for p in ps]
+        # second domain: restructured graphs of AST blocks (closed CFGs decorated with AST payloads)
+        for inp in rb.domain_inputs(args.tier, args.seed, "XR", scale=0.6 if quick else 0.5):
+            progs.append((inp["g"], ["graph"]))
     d = rb.workdir(PROP)
     try:
         k = min(args.jobs, len(progs))
@@ -94,12 +103,14 @@ def main(argv):
     rep.coverage.update({
         "states": states, "transitions": gen, "traces_validated_against_impl": len(acc), "evaluations": len(flat),
         "distinct_nontrivial": sum(1 for m in acc if m["nasg"] > 0),
-        "rule": "seeded generated programs of the supported subset (feature switches of DESIGN 6.1) through AST2SCFG -> restructure -> SCFG2AST -> unparse -> compile; "
+        "rule": "seeded generated programs of the supported subset (feature switches of DESIGN 6.1) through AST2SCFG -> restructure -> SCFG2AST -> unparse -> compile, and, "
+                "independently, closed CFGs (<=4 nodes all, 5 nodes sampled, seeded random 6-12) decorated with AST payloads -> restructure -> SCFG2AST; "
                 "the census of the output tree is judged by TLC; non-trivial = an accepted program whose restructured graph holds synthetic assignments",
         "all_paths_product_states": sk_states, "accepted": len(acc), "refused": sum(1 for m in flat if m["outcome"] == "refused"), "internal_errors": sum(1 for m in flat if m["outcome"] == "internal"),
         "outcomes_by_feature": byfeat, "exhaustive": False,
         "samples": [m["src"] for m in acc[:2]],
     })
+    rep.coverage["decorated_graphs"] = {"tried": sum(1 for m in flat if m["feats"] == ["graph"]), "accepted": sum(1 for m in acc if m["feats"] == ["graph"])}
     if flat and not args.replay and len(acc) < len(flat) // 4:
         raise tlc.MachineryError("vacuous: fewer than a quarter of the generated programs were accepted")
     return rep.finish()
